@@ -172,8 +172,20 @@ func (c *memConn) Write(p []byte) (int, error) {
 		defer c.wmu.Unlock()
 	}
 	if atomic.LoadInt32(&c.blockWrites) != 0 {
-		<-c.closedCh
-		return 0, io.ErrClosedPipe
+		// a write that cannot make progress: it ends only when the link does
+		c.mu.Lock()
+		for !c.localClosed && !c.peerClosed {
+			c.cond.Wait()
+		}
+		lc := c.localClosed
+		c.mu.Unlock()
+		if rec, ok := c.peer.(interface{ clientWroteOnClosed(*memConn, []byte) }); ok {
+			rec.clientWroteOnClosed(c, p)
+		}
+		if lc {
+			return 0, io.ErrClosedPipe
+		}
+		return 0, errMemBrokenPipe
 	}
 	c.mu.Lock()
 	lc, pc := c.localClosed, c.peerClosed
